@@ -168,6 +168,7 @@ def tree_a(rng):
         'dep:pxi': ('dep-pxi', edit('inc.pxi', 'INC_K = %d' % (k + 3), 'INC_K = %d' % (k + 1003))),
         'dep:pxi-nested': ('dep-pxi', edit('inc2.pxi', 'INC2_K = %d' % (k + 4), 'INC2_K = %d' % (k + 1004))),
         'dep:include-path-pxd': ('dep-pxd', edit('inc_a/extra.pxd', 'EXTRA_K = %d' % (k + 5), 'EXTRA_K = %d' % (k + 1005))),
+        'source:compile-error': ('compile-error', edit('main.pyx', 'return a // b + a %% b'.replace('%%', '%'), 'return a // b + undefined_c48_name')),
         'dep:c-header': ('irrelevant:c-header', edit('hdr.h', 'HDR_CONST %d' % (k + 7), 'HDR_CONST %d' % (k + 1007))),
     }
     return {'kind': 'A-flat-pyx', 'files': files, 'patterns': ['main.pyx'], 'file_factors': ff,
@@ -185,7 +186,7 @@ cdef class Shape:
     cpdef double area(self)
     cdef double grow(self, double f)
 
-cdef api double shape_area(Shape s)
+cdef api double shape_area(double w, double h)
 '''
 B_SHAPES = '''\
 from pkg cimport consts
@@ -212,18 +213,10 @@ cdef class Shape:
         return isinstance(other, Shape) and self.area() == other.area()
 
 
-cdef api double shape_area(Shape s):
-    return s.area()
+cdef api double shape_area(double w, double h):
+    return Shape(w, h).area()
 
 cdef public int shape_version = %(k)d
-
-
-def view_sum(double[:] data, Py_ssize_t i):
-    cdef double total = 0
-    cdef Py_ssize_t j
-    for j in range(data.shape[0]):
-        total += data[j]
-    return total + data[i]
 
 
 def make(n):
@@ -281,14 +274,18 @@ def tree_b(rng):
         'source:constant': ('source', edit('pkg/user.pyx', 'twice(%d)' % (k + 1), 'twice(%d)' % (k + 1001))),
         'source:other-module': ('source', edit('pkg/shapes.pyx', 'shape_version = %d' % k, 'shape_version = %d' % (k + 1000))),
         'source:comment-only': ('source-cosmetic', edit('pkg/user.pyx', 'cdef double t = 0', 'cdef double t = 0  # zero')),
+        'source:compile-error': ('compile-error', edit('pkg/shapes.pyx', 'cdef public int shape_version', 'cdef public Shape shape_version')),
         'dep:own-pxd': ('dep-own-pxd', edit('pkg/shapes.pxd', 'cdef public double w, h', 'cdef public double h, w')),
         'dep:pxd-of-cimported-module': ('dep-pxd', edit('pkg/shapes.pxd', 'cdef double grow(self, double f)',
                                                         'cdef double grow(self, double f)\n    cdef double extra_method(self)',
                                                         also=('pkg/shapes.pyx', '    def diag(self):',
                                                               '    cdef double extra_method(self):\n        return 0\n\n'
                                                               '    def diag(self):'))),
-        'dep:pxd-direct': ('dep-pxd', edit('pkg/consts.pxd', 'UNIT = %d' % (k + 2), 'UNIT = %d' % (k + 1002))),
-        'dep:pxd-inline-body': ('dep-pxd', edit('pkg/consts.pxd', 'return 2 * x + UNIT', 'return 3 * x + UNIT')),
+        # consts.pxd is reached from shapes.pyx only through "from pkg cimport consts" (user.pyx also names pkg.consts)
+        'dep:pxd-from-package-cimport': ('dep-pxd-via-from-package-cimport',
+                                         edit('pkg/consts.pxd', 'UNIT = %d' % (k + 2), 'UNIT = %d' % (k + 1002))),
+        'dep:pxd-from-package-cimport-inline-body': ('dep-pxd-via-from-package-cimport',
+                                                     edit('pkg/consts.pxd', 'return 2 * x + UNIT', 'return 3 * x + UNIT')),
     }
     return {'kind': 'B-package-api', 'files': files, 'patterns': ['pkg/*.pyx'], 'file_factors': ff,
             'kwargs': {'language_level': 3, 'quiet': True},
@@ -401,16 +398,20 @@ class Plain:
 
 def tree_c(rng):
     k = rng.randint(2, 60)
+    # lib.py is longer than one 65000-byte read of Cache.file_hash; LATE sits behind that boundary
+    filler = ''.join('# filler line %04d %s\n' % (i, 'x' * 60) for i in range(900))
     files = {
         'app.py': C_APP % {'k': k},
         'app.pxd': C_APP_PXD,
-        'lib.py': C_LIB % {'k': k + 1},
+        'lib.py': C_LIB % {'k': k + 1} + filler + 'LATE = %d\n' % (k + 2),
     }
     ff = {
         'source:constant': ('source', edit('app.py', 'K_APP = %d' % k, 'K_APP = %d' % (k + 1000))),
         'source:other-module': ('source', edit('lib.py', 'attr = %d' % (k + 1), 'attr = %d' % (k + 1001))),
         'source:comment-only': ('source-cosmetic', edit('app.py', 'K_APP = %d' % k, 'K_APP = %d  # note' % k)),
         'source:whitespace-only': ('source-cosmetic', edit('app.py', '    acc = []\n', '    acc = []  \n')),
+        'source:compile-error': ('compile-error', edit('app.py', 'return x * x + K_APP', 'return x * x + undefined_c48_name')),
+        'source:constant-beyond-64k': ('source', edit('lib.py', 'LATE = %d' % (k + 2), 'LATE = %d' % (k + 1002))),
         'dep:own-pxd': ('dep-own-pxd', edit('app.pxd', 'cpdef long fast(long x)', 'cpdef int fast(int x)')),
     }
     return {'kind': 'C-pure-python', 'files': files, 'patterns': ['app.py', 'lib.py'], 'file_factors': ff,
@@ -463,11 +464,11 @@ SKIP_DIRECTIVES = {
     'test_fail_if_path_exists', 'test_assert_c_code_has', 'test_fail_if_c_code_has',
     'test_body_needs_exception_handling', 'np_pythran', 'formal_grammar', 'language_level',
     # function/with-statement-only directives that cannot be given globally
-    'nogil', 'gil', 'with_gil', 'callspec', 'warn',
+    'nogil', 'gil', 'with_gil', 'callspec', 'warn', 'c_compile_guard',
 }
 DIRECTIVE_VALUES = {
     'auto_pickle': [False], 'cpow': [True], 'infer_types': [True, False], 'set_initial_path': ['SOURCEFILE'],
-    'subinterpreters_compatible': ['shared_gil'], 'c_compile_guard': ['VERIF_GUARD'],
+    'subinterpreters_compatible': ['shared_gil'],
     'embedsignature.format': [('python', {'embedsignature': True})],
     'c_string_type': [('str', {'c_string_encoding': 'utf8'})], 'c_string_encoding': ['utf8'],
 }
@@ -510,7 +511,7 @@ def option_factors(proj):
         'option:legacy_implicit_noexcept': ('option:legacy_implicit_noexcept', set_kw('legacy_implicit_noexcept', True)),
         'option:generate_pxi': ('option:generate_pxi', set_kw('generate_pxi', 1)),
         'option:use_listing_file': ('option:use_listing_file', set_kw('use_listing_file', 1)),
-        'version:patched': ('version', lambda st: st.__setitem__('version', '99.0.verif')),
+        'version:patched': ('version', lambda st: st.__setitem__('version', '99.0.1')),
         'irrelevant:quiet-off': ('irrelevant:verbosity', set_kw('quiet', False)),
         'irrelevant:verbose': ('irrelevant:verbosity', set_kw('verbose', 1)),
         'irrelevant:build_dir': ('irrelevant:output-path', set_kw('build_dir', 'bld')),
